@@ -134,7 +134,7 @@ func kfRound(args []KeyBuilderStage) (KeyBuilderStage, error) {
 		return stageErrArgRange(args, "1-2")
 	}
 
-	precision, precisionOk := EvalArgInt(args, 1, 0)
+	precision, precisionOk := EvalArgPrecision(args, 1, 0)
 	if !precisionOk {
 		return stageArgError(ErrConst, 1)
 	}
